@@ -5,17 +5,17 @@ use crate::c09::*;
 
 /// Test generated for harness `c09::c09_shift_beyond_total_n2` 
 ///
-/// Check for `assertion`: ""front iteration yields exactly the announced number of items""
+/// Check for `assertion`: "attempt to subtract with overflow"
 
 #[test]
-fn kani_concrete_playback_c09_shift_beyond_total_n2_4388919106558824171() {
+fn kani_concrete_playback_c09_shift_beyond_total_n2_1385748523368591263() {
     let concrete_vals: Vec<Vec<u8>> = vec![
         // -1
         vec![255, 255, 255, 255],
         // -1
         vec![255, 255, 255, 255],
-        // -3
-        vec![253, 255, 255, 255],
+        // 4
+        vec![4, 0, 0, 0],
         // -1
         vec![255, 255, 255, 255],
     ];
@@ -43,17 +43,17 @@ fn kani_concrete_playback_c09_shift_beyond_total_n2_10685526028007889692() {
 
 /// Test generated for harness `c09::c09_shift_beyond_total_n2` 
 ///
-/// Check for `assertion`: "attempt to subtract with overflow"
+/// Check for `assertion`: ""front iteration yields exactly the announced number of items""
 
 #[test]
-fn kani_concrete_playback_c09_shift_beyond_total_n2_1385748523368591263() {
+fn kani_concrete_playback_c09_shift_beyond_total_n2_4388919106558824171() {
     let concrete_vals: Vec<Vec<u8>> = vec![
         // -1
         vec![255, 255, 255, 255],
         // -1
         vec![255, 255, 255, 255],
-        // 4
-        vec![4, 0, 0, 0],
+        // -3
+        vec![253, 255, 255, 255],
         // -1
         vec![255, 255, 255, 255],
     ];
